@@ -150,6 +150,35 @@ fn main() {
                             .collect(),
                     );
                 }
+                if form == EntryForm::Next {
+                    // the same chain behind another ordered clause: its range does not start at
+                    // global slot 0 (one accepted call to O::e comes first)
+                    let lead = ClauseSpec::Single {
+                        m: M::E,
+                        entry: Entry::NextCall,
+                        pat: PatSpec {
+                            mask: 7,
+                            segs: vec![Seg {
+                                resp: Resp::Ret(900),
+                                quant: Quant::N(2),
+                            }],
+                        },
+                    };
+                    let mut shifted: Vec<Vec<Call>> = vec![];
+                    for h in histories.iter().take(1 + 3) {
+                        let mut s = vec![Call::new(M::E, 0), Call::new(M::E, 1)];
+                        s.extend(h.iter().cloned());
+                        shifted.push(s);
+                    }
+                    cases.push(Case {
+                        label: format!("{}/{form:?}-shifted/segs{}", m.name(), chain.len()),
+                        config: Config {
+                            partial: false,
+                            clauses: vec![lead, clause.clone()],
+                        },
+                        histories: HistGen::List(shifted),
+                    });
+                }
                 cases.push(Case {
                     label: format!("{}/{form:?}/segs{}", m.name(), chain.len()),
                     config: Config {
